@@ -1033,23 +1033,26 @@ class RTCSctpTransport(AsyncIOEventEmitter):
 
         # server
         elif isinstance(chunk, InitChunk) and self.is_server:
-            self._last_received_tsn = tsn_minus_one(chunk.initial_tsn)
-            self._reconfig_response_seq = tsn_minus_one(chunk.initial_tsn)
-            self._remote_verification_tag = chunk.initiate_tag
-            self._ssthresh = chunk.advertised_rwnd
-            self._get_extensions(chunk.params)
+            # a duplicate INIT which arrives once the association is up
+            # is answered, but must not reset what has been received so far
+            if self._association_state == self.State.CLOSED:
+                self._last_received_tsn = tsn_minus_one(chunk.initial_tsn)
+                self._reconfig_response_seq = tsn_minus_one(chunk.initial_tsn)
+                self._remote_verification_tag = chunk.initiate_tag
+                self._ssthresh = chunk.advertised_rwnd
+                self._get_extensions(chunk.params)
 
-            self.__log_debug(
-                "- Peer supports %d outbound streams, %d max inbound streams",
-                chunk.outbound_streams,
-                chunk.inbound_streams,
-            )
-            self._inbound_streams_count = min(
-                chunk.outbound_streams, self._inbound_streams_max
-            )
-            self._outbound_streams_count = min(
-                self._outbound_streams_count, chunk.inbound_streams
-            )
+                self.__log_debug(
+                    "- Peer supports %d outbound streams, %d max inbound streams",
+                    chunk.outbound_streams,
+                    chunk.inbound_streams,
+                )
+                self._inbound_streams_count = min(
+                    chunk.outbound_streams, self._inbound_streams_max
+                )
+                self._outbound_streams_count = min(
+                    self._outbound_streams_count, chunk.inbound_streams
+                )
 
             init_ack = InitAckChunk()
             init_ack.initiate_tag = self._local_verification_tag
